@@ -833,6 +833,9 @@ struct World
             // which addressed object did the library pick? (the one its parent no longer lists / the one returned)
             int X = -1, gone = 0;
             for (int x : an.victims) {
+                if (d.act == REPLACE && x == cl.b) {
+                    continue; // the replacement legitimately leaves its previous parent
+                }
                 if (!reallyListed(x)) {
                     ++gone;
                     if (X < 0) {
